@@ -1249,15 +1249,33 @@ func (w *origWalker) localField(al *ssa.Alloc, i int, v ssa.Value, depth int) {
 			}
 		}
 	}
-	for _, st := range storesTo(al) {
-		found = true
-		if ld, ok := st.Val.(*ssa.UnOp); ok && ld.Op == token.MUL && depth < 4 {
+	// the struct values stored as a whole: a load of another local cell, or a merge of such (the result of an
+	// inlined helper that returns the struct by value from several places)
+	var whole func(sv ssa.Value, d int)
+	seenPhi := map[*ssa.Phi]bool{}
+	whole = func(sv ssa.Value, d int) {
+		if ld, ok := sv.(*ssa.UnOp); ok && ld.Op == token.MUL && d < 5 {
 			if al2, ok := ld.X.(*ssa.Alloc); ok && al2 != al && al2.Referrers() != nil {
-				w.localField(al2, i, v, depth+1)
-				continue
+				w.localField(al2, i, v, d+1)
+				return
 			}
 		}
-		w.walk(st.Val)
+		if ph, ok := sv.(*ssa.Phi); ok && d < 5 && !seenPhi[ph] {
+			seenPhi[ph] = true
+			for _, e := range ph.Edges {
+				whole(e, d+1)
+			}
+			return
+		}
+		if c, ok := sv.(*ssa.Const); ok && c.Value == nil {
+			w.root(Root{Kind: "const", Val: v, Desc: "zero"})
+			return
+		}
+		w.walk(sv)
+	}
+	for _, st := range storesTo(al) {
+		found = true
+		whole(st.Val, depth)
 	}
 	esc := false
 	for _, c := range escapesTo(al) {
